@@ -1,0 +1,24 @@
+// Copyright JAMF Software, LLC
+
+//go:build verif
+
+package cluster
+
+import (
+	"github.com/lni/dragonboat/v4"
+	"go.uber.org/zap"
+)
+
+// NewVerifCluster creates a Cluster that has no memberlist behind it (it must never be started or closed): its event
+// callbacks (Notify, NotifyJoin, NotifyLeave, NotifyUpdate) and ShardInfo work on the view of the returned VerifView, whose
+// memberlist delegate reads the same local raft info. Compiled only with the "verif" build tag.
+func NewVerifCluster(local func() []dragonboat.ShardInfo) (*Cluster, *VerifView) {
+	vv := NewVerifView(local)
+	return &Cluster{
+		log:       zap.NewNop().Sugar(),
+		infoF:     vv.del.infoF,
+		shardView: vv.view,
+		not:       make(chan struct{}, 1),
+		stop:      make(chan struct{}),
+	}, vv
+}
